@@ -89,6 +89,8 @@ func c03Build(rt *rapid.T, s *stdSvc, cell c03Cell, g stdIngress) *AMsg {
 				toHost = "plain-w.test" // literals of a route item that also lists wildcards
 			case 3:
 				toHost = "tail-lit.test"
+			case 4:
+				toHost = "static-high.test" // next hop on a port beyond 32767
 			}
 		}
 	case 1:
@@ -116,7 +118,7 @@ func c03Build(rt *rapid.T, s *stdSvc, cell c03Cell, g stdIngress) *AMsg {
 		case 0:
 			switch rapid.IntRange(0, 3).Draw(rt, "nexthop") {
 			case 0:
-				u.Host, u.Port = s.ip(25), 5070
+				u.Host, u.Port = s.ip(25), rapid.SampledFrom([]int{5070, s.high}).Draw(rt, "nexthop port")
 			case 1:
 				u.Host, u.Port = "hop-c.test", 5070
 			case 2:
